@@ -2,7 +2,7 @@
   C02 — No false positives: absent strings give NORESULT, bad IDs give NULL.
 -/
 import CSD.Lemmas.PFCMeta
-import CSD.Lemmas.HashBuild
+import CSD.Lemmas.HashBlocks
 
 namespace CSD.Props.C02
 open CSD CSD.PFC
@@ -50,6 +50,12 @@ theorem hash_locate_absent (tsize0 : Nat) (S : List Str) (hnd : S.Nodup) (hcap :
     (hacc : Hash.accepted (Hash.build tsize0 S).tsize = true) (q : Str) (hq : q ∉ S) :
     Hash.locate (Hash.build tsize0 S) q = 0 :=
   Hash.locate_absent (Hash.goodDict_build tsize0 S hnd hcap hacc) q hq
+
+/-- HASHRPDACBlocks: an absent string is answered 0 whichever part the samples select. -/
+theorem blocks_locate_absent (cutSize : Nat) (tsizeOf : Nat → Nat) (S : List Str)
+    (ok : Hash.PartsOK cutSize tsizeOf S) (q : Str) (hq : q ∉ S) :
+    Hash.locateBlocks (Hash.buildBlocks cutSize tsizeOf S) q = 0 :=
+  Hash.blocks_locate_absent ok q hq
 
 /-- Hash kinds: ID 0 and IDs above `n` extract nothing. -/
 theorem hash_extract_bad_id (tsize0 : Nat) (S : List Str) (i : Nat) (h : i = 0 ∨ i > S.length) :
